@@ -20,6 +20,9 @@ PANIC = re.compile(r'(Option::<T>::(unwrap|expect)$|Result::<T, E>::(unwrap|expe
                    r'|replace_range$|split_at$|split_at_mut$|::remove$|::swap_remove$|::drain$|::split_off$|::truncate$|::insert_str$'
                    r'|RefCell::<T>::borrow(_mut)?$|copy_from_slice$|char::from_u32_unchecked|from_utf8_unchecked|get_unchecked)')
 
+# remove/drain/... on maps and sets do not panic
+MAP_METHOD = re.compile(r'(HashMap|IndexMap|BTreeMap|HashSet|BTreeSet|IndexSet)::<[^>]*>::(remove|swap_remove|drain|truncate|split_off)$|(HashMap|IndexMap|BTreeMap|HashSet|IndexSet)<.*>::(remove|swap_remove|drain)$')
+
 # (function, sink) -> (max count, reason).  Frozen; one line of reason per row.
 ALLOW = {
     ('oal_syntax::lexer::parse_http_status', 'expect'): (1, 'token pattern [1-5]XX is never empty'),
@@ -40,6 +43,10 @@ ALLOW = {
     ('oal_model::lexicon::TokenRef::token', 'unwrap'): (1, 'arena token of this list'),
     ('oal_model::grammar::SyntaxTree::node', 'unwrap'): (1, 'node ids come from this arena'),
     ('oal_model::grammar::NodeRef::token', 'panic'): (1, 'only called on leaf nodes by terminal_node! wrappers'),
+    ('oal_client::config::path_locator', 'expect'): (1, 'a canonicalised (absolute) path always converts to a file URL'),
+    ('oal_client::lsp::Folder::new', 'unwrap'): (1, 'path_segments_mut on a file: URL (scheme tested on the line above) cannot fail'),
+    ('oal_model::locator::Locator::as_base', 'unwrap'): (1, 'only called by Config::new on the URL of the current directory'),
+    ('oal_wasm::<WebLoader<\'_> as oal_compiler::module::Loader<anyhow::Error>>::parse', 'unwrap'): (1, 'tree is Some whenever the error list is empty (oal_syntax::parse contract, C11/C04.R2)'),
     ('oal_client::lsp::Workspace::change', 'replace_range'): (1, 'offsets from position_to_utf8 are prefix sums of len_utf8 (C16) and ordered when the client range is'),
 }
 
@@ -56,8 +63,11 @@ def sink_kind(d):
 def domain(facts):
     root = facts.fn('oal_syntax::parse')
     ids = set(facts.reachable([root.id])) if root else set()
-    extra_prefix = ('oal_model::span::', 'oal_client::lsp::unicode::', 'oal_client::lsp::Workspace::change',
-                    'oal_wasm::report', 'oal_wasm::CharSpan', 'oal_client::cli::CharSpan')
+    # + the code that turns locators written in program text (`use "..."`) or configuration into paths and files
+    extra_prefix = ('oal_model::span::', 'oal_client::lsp::unicode::', 'oal_client::lsp::Workspace::',
+                    'oal_wasm::report', 'oal_wasm::CharSpan', 'oal_client::cli::', 'oal_client::locator_path',
+                    'oal_client::<DefaultFileSystem', 'oal_client::<cli::', 'oal_client::<lsp::WorkspaceLoader',
+                    'oal_client::lsp::Folder::', 'oal_client::config::', 'oal_model::locator::', 'oal_wasm::<WebLoader')
     for q, l in facts.by_qname.items():
         if q.startswith(extra_prefix):
             ids |= {x.id for x in l}
@@ -80,7 +90,7 @@ def r1_text_panic(c, facts):
         nfn += 1
         for bi, t in fn.calls():
             info = callee_of(t)
-            if info and PANIC.search(info['def']):
+            if info and PANIC.search(info['def']) and not MAP_METHOD.search(info['def']):
                 k = sink_kind(info['def'])
                 sinks.setdefault((fn.qname, k), []).append(t['ln'])
         for bi, b in fn.blocks():
@@ -137,6 +147,102 @@ def panic_census(c, facts):
             out[fn.qname] = n
     c.extra['informational_panic_sites_outside_text_domain'] = {'functions': len(out), 'sites': sum(out.values()),
                                                                 'top': sorted(out.items(), key=lambda x: -x[1])[:25]}
+
+
+def _schema_variants(facts):
+    return list(facts.variants('oal_compiler::spec::SchemaExpr') or [])
+
+
+def _arm_sets(m, allv):
+    """[(variant set, arm)] for a match on SchemaExpr; a wildcard/binding arm gets the complement of the arms before it"""
+    from facts import pat_variants
+    seen = set()
+    out = []
+    for arm in m['arms']:
+        vs = set(pat_variants(arm['pat']))
+        if not vs:
+            vs = set(allv) - seen
+        out.append((vs, arm))
+        seen |= vs
+    return out
+
+
+def _has_panic(e):
+    from facts import hir_walk, callee_def
+    for x, _ in hir_walk(e):
+        if x['k'] == 'call' and ('panicking' in (callee_def(x) or '') or 'begin_panic' in (callee_def(x) or '')):
+            return True
+    return False
+
+
+def r9_emit_total(c, facts, rule='C04.R9'):
+    """a function of the emitter that panics on some variants of the schema it is given is only called with the others"""
+    from facts import hir_walk, callee_id, pat_variants, variant_of, FnCtx
+    R = c.rule(rule, 'EMIT-TOTAL: an emitter function that has no case for some SchemaExpr variants (unreachable!) is only handed the other variants')
+    allv = _schema_variants(facts)
+    if not allv:
+        c.bad(R, 'anchor-missing:spec::SchemaExpr', 'enum oal_compiler::spec::SchemaExpr not found')
+        return
+    partial = {}
+    some_sets = {}
+    for fn in facts.fns.values():
+        if fn.crate != 'oal_openapi' or not fn.hir:
+            continue
+        for e, anc in hir_walk(fn.hir['body']):
+            if e['k'] == 'match' and 'SchemaExpr' in e['scrut']['ty'] and e.get('src') != 'TryDesugar':
+                arms = _arm_sets(e, allv)
+                pv = set()
+                for vs, arm in arms:
+                    b = arm['body']
+                    direct = b['k'] == 'call' and 'panicking' in ((b['f'].get('def') or '')) or (b['k'] == 'block' and not b['stmts'] and b['expr'] is not None and _has_panic(b['expr']) and b['expr']['k'] == 'call')
+                    if direct or (b['k'] in ('call', 'block') and _has_panic(b) and not any(x['k'] in ('mcall', 'match') for x, _ in hir_walk(b))):
+                        pv |= vs
+                if pv:
+                    partial.setdefault(fn.id, set()).update(pv)
+                if 'Option<' in (fn.d.get('sig_output') or ''):
+                    sv = set()
+                    for vs, arm in arms:
+                        b = arm['body']
+                        if b['k'] == 'call' and variant_of(b['f']) == 'Some':
+                            sv |= vs
+                    some_sets[fn.id] = sv
+    n = 0
+    for fid, pv in sorted(partial.items(), key=lambda x: facts.fns[x[0]].qname):
+        F_ = facts.fns[fid]
+        for g in facts.fns.values():
+            if g.crate != 'oal_openapi' or not g.hir:
+                continue
+            ctx = None
+            for e, anc in hir_walk(g.hir['body']):
+                if e['k'] not in ('call', 'mcall') or callee_id(e) != fid:
+                    continue
+                n += 1
+                ctx = ctx or FnCtx(g)
+                arg = (e['args'][-1] if e['args'] else None)
+                allowed = set(allv)
+                how = []
+                for parent, lab in anc:
+                    if lab[0] in ('then', 'else') and lab[1]['cond']['k'] == 'let' and 'SchemaExpr' in lab[1]['cond']['init']['ty']:
+                        vs = set(pat_variants(lab[1]['cond']['pat']))
+                        allowed &= vs if lab[0] == 'then' else (set(allv) - vs)
+                        how.append('if-let on the variant')
+                    if lab[0] == 'arm' and 'SchemaExpr' in lab[2]['scrut']['ty']:
+                        for vs, arm in _arm_sets(lab[2], allv):
+                            if arm is lab[1]:
+                                allowed &= vs
+                                how.append('match arm')
+                src = ctx.local_src(arg) if arg is not None else None
+                if src and src[0] == 'arm' and src[1]['k'] in ('call', 'mcall') and callee_id(src[1]) in some_sets and 'Some' in pat_variants(src[2]):
+                    allowed &= some_sets[callee_id(src[1])]
+                    how.append('Some(..) of %s' % facts.fns[callee_id(src[1])].qname.split('::')[-1])
+                inst = {'callee': F_.qname, 'panics_on': sorted(pv), 'caller': g.qname, 'line': e['ln'], 'argument_variants': sorted(allowed), 'established_by': how}
+                if allowed & pv:
+                    c.bad(R, '%s->%s:%s' % (g.qname.split('::')[-1], F_.qname.split('::')[-1], ','.join(sorted(allowed & pv))),
+                          '%s calls %s with a schema that may be %s, for which %s panics (unreachable!): an accepted program aborts the compiler instead of producing a document' % (g.qname, F_.qname, sorted(allowed & pv), F_.qname), **inst)
+                else:
+                    c.ok(R, inst)
+    c.floor(R, 'call sites of emitter functions that are partial in the SchemaExpr variant', n, 2)
+
 
 
 def r4_memo_total(c, facts, rule='C04.R4'):
@@ -199,4 +305,5 @@ def run(c, facts):
     import c08
     R8 = c.rule('C04.R8', 'GRAPH-COMPLETE: every use adds a dependency edge, so every cycle is seen (shared with C08.R2)')
     c.shared(R8, c08.r2_pairing, 'C08.R2', facts)
+    c.run(lambda c: r9_emit_total(c, facts))
     panic_census(c, facts)
